@@ -82,7 +82,8 @@ def handle (j : Json) : Except String Json := do
     | _, _ => pure (optV3ToJson want)
   | "verdict" =>
     let items ← listOf itemOfJson (← field j "items")
-    pure (okJson [("success", Json.bool (verdict TemplateTables.weights TemplateTables.tolerance items)),
+    pure (okJson [("success", Json.bool (verdict TemplateTables.weights TemplateTables.tolerance TemplateTables.interMethods
+                    TemplateTables.penaltyWeightKey items)),
                   ("within", Json.bool (withinTolerance TemplateTables.tolerance items))])
   | "volume" =>
     let atoms ← listOf (fun a => do
